@@ -90,7 +90,7 @@ var consProfiles = map[string][3]int{ // weights Get, GetNoWait, GetTimeout
 var consProfNames = []string{"get", "nowait", "timeout", "mixed", "get+nw", "get", "mixed"}
 
 func concCase(c *vlib.Ctx, kind int, i int, r *vlib.Rand) {
-	section := "conc-" + []string{"rq", "dq"}[kind]
+	section := secName("conc-", kind)
 	if skipAbandoned(c, section, i) {
 		return
 	}
@@ -125,7 +125,7 @@ func concCase(c *vlib.Ctx, kind int, i int, r *vlib.Rand) {
 		p.PillLane = 0 // pills overtake lane 2: its content is left at the end
 	}
 
-	caseID := fmt.Sprintf("conc-%s#%d", map[int]string{0: "rq", 1: "dq"}[kind], i)
+	caseID := fmt.Sprintf("%s#%d", secName("conc-", kind), i)
 	if tooManyStalls() && consProfiles[p.ConsProf][0] > 0 {
 		c.Inconclusive(caseID, "skipped: blocking-Get case after three stalls in this process")
 		return
